@@ -75,8 +75,19 @@ pub fn cmd_fill(a: &Args) {
     let mut idx = 0usize;
     for ch in 1..=8usize {
         for &(bb, bps) in &widths {
+            // large single fills: internal chunking of the hashing / conversion paths (1 KiB .. 4 KiB
+            // buffers hold a non-integral number of 3-byte samples)
+            let mut caps: Vec<usize> = caps.to_vec();
+            match ch {
+                1 => caps.extend(if thorough { vec![1366, 2731, 4097, 5462] } else { vec![1366, 4097] }),
+                2 => caps.extend(if thorough { vec![683, 1366, 2731] } else { vec![2731] }),
+                3 if thorough => caps.extend([456, 1366]),
+                _ => {}
+            }
             for &cap in &caps {
-                let lens: Vec<usize> = if thorough {
+                let lens: Vec<usize> = if cap > 100 {
+                    vec![cap - 1, cap]
+                } else if thorough {
                     (0..=cap).collect()
                 } else {
                     let mut v: Vec<usize> = (0..=cap).filter(|l| (l + idx) % 4 == 0).collect();
